@@ -66,7 +66,9 @@ m("C19", "proof",
   "C19_reusable_after_refusal); mode and closure resolve request-over-MIB (C19_mode_closure_resolution, "
   "C19_resolution_table); segment length = min(configured, max_packet_len - overhead) or refusal "
   "(C19_segment_length, C19_segment_length_refused); a transaction start takes the provider's next value "
-  "and advances it (C19_transaction_start, C19_bad_provider_width) and successive values are pairwise "
+  "and advances it (C19_transaction_start, C19_bad_provider_width); a source file that vanished between the "
+  "accepted request and the start raises SourceFileDoesNotExist on every call without drawing a number, the "
+  "handler staying busy at the transaction start (C19_source_vanished); successive values are pairwise "
   "distinct below 2^bits (C19_sequence_numbers_distinct). For EVERY history of put requests (accepted, "
   "refused, premature), state_machine calls with any PDU, retrievals, cancel requests, resets and "
   "transactions of other handlers sharing the provider: each operation draws at most one number "
